@@ -8,7 +8,7 @@ Local Open Scope Z_scope.
 (* ---------- keys ---------- *)
 Lemma key_eqb_eq a b : key_eqb a b = true <-> a = b.
 Proof.
-  destruct a as [[a1 a2] a3], b as [[b1 b2] b3]. unfold key_eqb, k_name, k_type, k_rcp; cbn.
+  destruct a as [[a1 a2] a3], b as [[b1 b2] b3]. unfold key_eqb, k_name, k_type, k_raw; cbn.
   rewrite !andb_true_iff, !Z.eqb_eq. split; [intros [[-> ->] ->]; reflexivity | intros [= -> -> ->]; auto].
 Qed.
 Lemma key_eqb_refl a : key_eqb a a = true.
